@@ -165,8 +165,13 @@ func Generate(repo, mode, outDir, srcDir string) (*Info, error) {
 				if name == "_" || strings.HasPrefix(name, "Verif") {
 					continue
 				}
-				names = append(names, name)
 				globals[tp.Name()+"."+name] = &GlobalVar{Pkg: ip, Name: name, Type: v.Type().String()}
+				if isSyncType(v.Type()) {
+					// synchronisation objects (sync.Pool, sync.Mutex, atomics) are not data: they are neither rendered in
+					// the snapshot (their internals change legitimately) nor copied by the restore
+					continue
+				}
+				names = append(names, name)
 			}
 		}
 		if len(names) == 0 {
@@ -230,10 +235,12 @@ func Generate(repo, mode, outDir, srcDir string) (*Info, error) {
 
 			// static access table (all modes; cheap) + Access() insertion (sched)
 			headerAccess := func(s ast.Stmt) map[string]bool { return nil }
+			var syncCalls []string // calls of methods of sync objects rooted at package-level variables, found by the last hdr()
 			var hdr func(s ast.Stmt) map[string]bool
 			hdr = func(s ast.Stmt) map[string]bool {
 				acc := map[string]bool{}
 				writes := map[*ast.Ident]bool{}
+				syncIdents := map[*ast.Ident]bool{}
 				var exprs []ast.Node
 				add := func(n ast.Node) {
 					if n != nil && !isNilNode(n) {
@@ -290,6 +297,13 @@ func Generate(repo, mode, outDir, srcDir string) (*Info, error) {
 							}
 						case *ast.CallExpr:
 							if se, ok := x.Fun.(*ast.SelectorExpr); ok {
+								if r := rootIdent(se.X); r != nil && pkgVar(r) != nil {
+									if t := ti.TypeOf(se.X); t != nil && isSyncType(t) {
+										// mu.Lock(), pool.Get(), state.mu.Unlock(), once.Do(f), counter.Add(1) ...
+										syncCalls = append(syncCalls, pkgVar(r).Pkg().Name()+"."+types.ExprString(se.X)+"."+se.Sel.Name)
+										syncIdents[r] = true
+									}
+								}
 								if r := rootIdent(se.X); r != nil {
 									if _, isPkgName := ti.Uses[r].(*types.PkgName); !isPkgName {
 										// method call on a value rooted at a package-level variable:
@@ -317,7 +331,7 @@ func Generate(repo, mode, outDir, srcDir string) (*Info, error) {
 							return false
 						}
 						if id, ok := n.(*ast.Ident); ok {
-							if v := pkgVar(id); v != nil {
+							if v := pkgVar(id); v != nil && !syncIdents[id] {
 								name := v.Pkg().Name() + "." + v.Name()
 								if isSyncType(v.Type()) {
 									// a synchronisation object (sync.Mutex, sync.Pool, atomic.Int64, ...): using it is a
@@ -398,7 +412,33 @@ func Generate(repo, mode, outDir, srcDir string) (*Info, error) {
 							}
 						}
 					}
+					syncCalls = nil
 					acc := headerAccess(s)
+					calls := syncCalls
+					_, isDefer := s.(*ast.DeferStmt)
+					mkSync := func(prefix string, deferred bool) []ast.Stmt {
+						var out []ast.Stmt
+						for _, c := range calls {
+							call := &ast.CallExpr{Fun: sel("verifrt", "Access"),
+								Args: []ast.Expr{&ast.BasicLit{Kind: token.STRING, Value: fmt.Sprintf("%q", prefix+c)}, &ast.BasicLit{Kind: token.INT, Value: "2"}}}
+							if deferred {
+								out = append(out, &ast.DeferStmt{Call: call})
+							} else {
+								out = append(out, &ast.ExprStmt{X: call})
+							}
+						}
+						return out
+					}
+					if mode == "sched" && len(calls) > 0 {
+						changed = true
+						info.AccessSites += len(calls)
+						if isDefer {
+							// at function return the order must be: call point, the deferred call itself, return point (LIFO)
+							res = append(res, mkSync("sync-ret:", true)...)
+						} else {
+							res = append(res, mkSync("sync:", false)...)
+						}
+					}
 					if len(acc) > 0 {
 						recordAccess(acc)
 						if mode == "sched" {
@@ -408,9 +448,26 @@ func Generate(repo, mode, outDir, srcDir string) (*Info, error) {
 							if fs, ok := s.(*ast.ForStmt); ok {
 								fs.Body.List = append(mkAccess(acc), fs.Body.List...)
 							}
+							if _, ok := s.(*ast.DeferStmt); ok {
+								// the deferred call touches the variable when it RUNS, at function return: register a scheduling
+								// point that runs right after it (defers run last-in first-out, so it is registered first)
+								for _, a := range mkAccess(acc) {
+									res = append(res, &ast.DeferStmt{Call: a.(*ast.ExprStmt).X.(*ast.CallExpr)})
+								}
+							}
 						}
 					}
 					res = append(res, s)
+					if mode == "sched" && len(calls) > 0 {
+						if isDefer {
+							res = append(res, mkSync("sync:", true)...)
+						} else {
+							switch s.(type) {
+							case *ast.ExprStmt, *ast.AssignStmt, *ast.IncDecStmt, *ast.DeclStmt:
+								res = append(res, mkSync("sync-ret:", false)...)
+							}
+						}
+					}
 				}
 				return res
 			}
